@@ -517,6 +517,9 @@ def _process_internal_events_without_default_matchers(
     if event.name == InternalEvents.START_FLOW:
         # Start new flow state instance if flow exists
         flow_id = event.arguments["flow_id"]
+        if "flow_instance_uid" not in event.arguments:
+            # A StartFlow event sent without choosing the uid of the new instance
+            event.arguments["flow_instance_uid"] = new_readable_uuid(flow_id)
         source_flow_state = state.flow_states.get(
             event.arguments.get("source_flow_instance_uid", None), None
         )
